@@ -184,6 +184,9 @@
   hy.models.FComponent
   (fn [x] (+
     "{"
+    ; A value that starts with a brace, like a dictionary literal, needs
+    ; a space, or else "{{" would be read as an escaped brace.
+    (if (.startswith (hy-repr (get x 0)) "{") " " "")
     (hy-repr (get x 0))
     (if x.conversion f" !{x.conversion}" "")
     (if (> (len x) 1)
